@@ -22,7 +22,7 @@ IsStart == e.ev \in {"Text", "Input"}
 \* the property-level action that has to explain the current event
 Step ==
     CASE e.ev = "Pos"    -> Pos(e.off, e.line, e.col, e)
-      [] e.ev = "ErrPos" -> ErrPos(e.line, e.col, e.matches, e.cur)
+      [] e.ev = "ErrPos" -> ErrPos(e.line, e.col, e.matches, e.cur, Has(e, "same") => e.same)
       [] e.ev = "NoErr"  -> NoErr
       [] OTHER           -> FALSE
 
@@ -36,6 +36,7 @@ Why == IF ~Returned THEN "panic"
              ELSE IF ~LineColOK(rt, text, e.off, e.line, e.col) THEN "line-col" ELSE "context")
        ELSE IF e.ev = "ErrPos" THEN
             (IF subject # "input" THEN "no-input"
+             ELSE IF Has(e, "same") /\ ~e.same THEN "depends-on-earlier-Err-calls"
              ELSE IF e.matches = <<>> THEN "no-byte-of-the-input-has-this-position"
              ELSE IF \E j \in DOMAIN e.matches : e.matches[j] < 0 \/ e.matches[j] > ilen THEN "outside-the-input"
              ELSE IF valid /\ ~\E j \in DOMAIN e.matches : LineColOK(rt, text, e.matches[j], e.line, e.col) THEN "line-col"
